@@ -188,3 +188,13 @@ func oracleCompareDistance(x, y s2.Point, r2 float64) int {
 }
 
 func oracleDotSign(a, b s2.Point) int { return rdot(rv(a), rv(b)).Sign() }
+
+// normalized reports | |p|^2 - 1 | <= 2^-50 exactly (the guard norm_pt of the distance theorems:
+// what Normalize leaves; r3.Vector.IsUnit only guarantees 5e-14).
+func normalized(p s2.Point) bool {
+	P := rv(p)
+	d := rsub(rdot(P, P), big.NewRat(1, 1))
+	d.Abs(d)
+	lim := new(big.Rat).SetFrac(big.NewInt(1), new(big.Int).Lsh(big.NewInt(1), 50))
+	return d.Cmp(lim) <= 0
+}
